@@ -28,9 +28,10 @@ type Fn struct {
 	G      *Graph
 	parent map[ast.Node]ast.Node
 	// Subst overrides the canonical name of selected objects (e.g. "$res").
-	Subst map[types.Object]string
-	prod  *Product
-	Outer *Fn // enclosing function of a literal
+	Subst     map[types.Object]string
+	prod      *Product
+	cfgBlocks []*cfg.Block
+	Outer     *Fn // enclosing function of a literal
 	// AtomRename maps normalised atom keys to role names (see Roles).
 	AtomRename func(string) string
 	defCache   map[*types.Var]defInfo
@@ -200,6 +201,7 @@ func noReturn(info *types.Info, call *ast.CallExpr) bool {
 
 func (f *Fn) build() {
 	c := cfg.New(f.Body, func(call *ast.CallExpr) bool { return !noReturn(f.Info, call) })
+	f.cfgBlocks = c.Blocks
 	g := &Graph{ofNode: map[ast.Node]int{}, blockE: map[*cfg.Block]int{}}
 	newV := func(kind int, n ast.Node, b *cfg.Block) *V {
 		v := &V{ID: len(g.Vs), Kind: kind, Node: n, Block: b, TrueSucc: -1, FalseSucc: -1}
@@ -263,6 +265,17 @@ func (f *Fn) build() {
 			edge(cur, g.blockE[b.Succs[0]])
 		case 2:
 			t, e := g.blockE[b.Succs[0]], g.blockE[b.Succs[1]]
+			if ts := f.typeSwitchTest(b); ts != nil {
+				// a case of a type switch: go/cfg has no node for the test; a synthetic boolean stands
+				// for the ok result of x.(T), so `switch v := x.(type) { case T:` and
+				// `if v, ok := x.(T); ok {` give the same atom
+				v := newV(VNode, ts, b)
+				g.ofNode[ts] = v.ID
+				edge(cur, v.ID)
+				cur = v.ID
+				v.IsCond, v.Cond, v.TrueSucc, v.FalseSucc = true, ts, t, e
+				last = nil
+			}
 			edge(cur, t)
 			edge(cur, e)
 			if last != nil {
@@ -275,6 +288,74 @@ func (f *Fn) build() {
 		}
 	}
 	f.G = g
+}
+
+// typeSwitchTest returns, for a block that ends in the test of one case type of a type switch, a
+// synthetic boolean identifier whose canonical name is that of the ok result of the assertion.
+func (f *Fn) typeSwitchTest(b *cfg.Block) ast.Expr {
+	body, next := b.Succs[0], b.Succs[1]
+	if body.Kind != cfg.KindSwitchCaseBody {
+		return nil
+	}
+	cc, ok := body.Stmt.(*ast.CaseClause)
+	if !ok || len(cc.List) == 0 {
+		return nil
+	}
+	blk, _ := f.parent[cc].(*ast.BlockStmt)
+	ts, _ := f.parent[blk].(*ast.TypeSwitchStmt)
+	if blk == nil || ts == nil {
+		return nil
+	}
+	// which case type: the k-th test of a clause jumps (on failure) to the k-th "next case" block
+	// that go/cfg created for the clause
+	k := 0
+	if len(cc.List) > 1 {
+		if next.Kind != cfg.KindSwitchNextCase || next.Stmt != ast.Stmt(cc) {
+			return nil
+		}
+		for _, ob := range f.cfgBlocks {
+			if ob.Kind == cfg.KindSwitchNextCase && ob.Stmt == ast.Stmt(cc) && ob.Index < next.Index {
+				k++
+			}
+		}
+		if k >= len(cc.List) {
+			return nil
+		}
+	}
+	ct := cc.List[k]
+	if id, ok := ct.(*ast.Ident); ok && id.Name == "nil" {
+		return nil
+	}
+	var x ast.Expr
+	switch a := ts.Assign.(type) {
+	case *ast.AssignStmt:
+		if len(a.Rhs) == 1 {
+			if ta, ok := a.Rhs[0].(*ast.TypeAssertExpr); ok {
+				x = ta.X
+			}
+		}
+	case *ast.ExprStmt:
+		if ta, ok := a.X.(*ast.TypeAssertExpr); ok {
+			x = ta.X
+		}
+	}
+	if x == nil {
+		return nil
+	}
+	var pkg *types.Package
+	if f.Pkg != nil {
+		pkg = f.Pkg.Types
+	}
+	name := "typecase·" + fmt.Sprint(int(ct.Pos()))
+	v := types.NewVar(ct.Pos(), pkg, name, types.Typ[types.Bool])
+	id := &ast.Ident{NamePos: ct.Pos(), Name: name}
+	f.Info.Uses[id] = v
+	f.Info.Types[id] = types.TypeAndValue{Type: types.Typ[types.Bool]}
+	if f.Subst == nil {
+		f.Subst = map[types.Object]string{}
+	}
+	f.Subst[v] = f.Canon(x) + ".(" + types.ExprString(ct) + ")#1"
+	return id
 }
 
 // effectiveCond returns the boolean condition a two-way block tests, or nil
